@@ -1,0 +1,51 @@
+//go:build verif
+
+package fd
+
+// Contracts for the verification harness under /verif (comment-only file).
+//
+// C20: "a source is banned only if at least its threshold of events arrived since
+// the previous maintenance round".  The configured threshold is per second; the
+// antispammer counts per maintenance interval.  The conversion keeps the two
+// special values (0 blocks everything, -1 disables) and never turns a positive
+// threshold into 0 - which the antispammer reads as "block every event".
+
+//@ func scaleAntispamThreshold
+//@   requires 0 <= interval && interval <= 86400000000000 && threshold <= 1000000000
+//@   pure
+//@   ensures threshold <= 0 ==> result == threshold
+//@   ensures threshold > 0 ==> result >= 1
+//@   ensures threshold > 0 && interval == 1000000000 ==> result == threshold
+//@   ensures threshold > 0 && interval == 5000000000 ==> result == 5 * threshold
+//@   ensures threshold > 0 && interval == 500000000 && threshold >= 2 ==> result == threshold / 2
+
+// extractAntispamRules: the threshold stored in a rule is the configured one,
+// converted; a rule configured with a positive threshold never blocks outright.
+
+//@ func extractAntispamRules
+//@   option allow-exit yes
+//@   ghost conf int = 0
+//@   requires 0 <= antispamMaintenanceInterval && antispamMaintenanceInterval <= 86400000000000
+//@   assert at "rules = append(rules, antispam.Rule{" conf > 0 ==> threshold >= 1
+//@   assert at "rules = append(rules, antispam.Rule{" conf == 0 ==> threshold == 0
+//@   callee MustInt(a) (r)
+//@     ensures r <= 1000000000
+//@     set conf := r
+//@   callee extractDoIfChecker(j) (c, e)
+//@     pure
+//@   callee Warnf(f, a)
+//@     pure
+
+// extractPipelineParams: the same for the pipeline-wide threshold (the last
+// MustInt before the conversion reads it, under either of its two names).
+
+//@ func extractPipelineParams
+//@   option allow-exit yes
+//@   ghost conf int = 0
+//@   assert at "antispamRules, err = extractAntispamRules(" conf > 0 ==> antispamThreshold >= 1
+//@   assert at "antispamRules, err = extractAntispamRules(" conf == 0 ==> antispamThreshold == 0
+//@   callee MustInt(a) (r)
+//@     ensures r <= 1000000000
+//@     set conf := r
+//@   callee ParseDuration(s) (d, e)
+//@     ensures e == nil ==> 0 <= d && d <= 86400000000000
